@@ -177,9 +177,9 @@ def syncStep (s : SyncSt) (f : List String) : SyncSt × String :=
     let l := checkPast s.cfg.verify (viewGet s s.node.st.base) s.node.head (upTo.toNat?.getD 0)
     (s, "faulty=" ++ joinOr "." (l.map toString))
   | "follow" :: upTo :: attempts =>
-    -- one token per loop iteration: perm;peer;peer…
-    let atts := attempts.map fun a => match a.splitOn ";" with
-      | perm :: peers => peersAt s.chained 0 perm peers
+    -- one token per loop iteration: perm;peer;peer… ; iteration k uses script k of every peer
+    let atts := (attempts.zipIdx).map fun (a, k) => match a.splitOn ";" with
+      | perm :: peers => peersAt s.chained k perm peers
       | [] => []
     let r := followLoop s.cfg "self" (upTo.toNat?.getD 0) s.node atts
     let res := match r.2 with | .done => "done" | .following => "following" | .cancelled => "cancelled" | .stuck => "stuck"
